@@ -42,7 +42,8 @@ variant("zhit:default-window", "perform_zhit", ZH[:-2] + ")")
 variant("zhit:weights:Z", "perform_zhit", ZH + "weights=np.ones(n), window='boxcar')")
 variant("zhit:weights:Y:none:cubic", "perform_zhit", ZH + "weights=np.ones(n), window='boxcar', admittance=True, smoothing='none', interpolation='cubic')")
 variant("zhit:weights:Y:modsinc:makima", "perform_zhit", ZH + "weights=np.ones(n), window='boxcar', admittance=True)")
-variant("zhit:weights:Z:auto:auto", "perform_zhit", ZH + "weights=np.linspace(0.5, 1.0, n), window='boxcar', smoothing='auto', interpolation='auto')")
+variant("zhit:weights:Z:auto:makima", "perform_zhit", ZH + "weights=np.linspace(0.5, 1.0, n), window='boxcar', smoothing='auto')")
+variant("zhit:weights:Z:auto:auto", "perform_zhit", ZH + "weights=np.linspace(0.5, 1.0, n), window='boxcar', smoothing='auto', interpolation='auto')", tier="thorough")
 variant("zhit:weights:Z:savgol:pchip", "perform_zhit", ZH + "weights=np.ones(n), window='boxcar', smoothing='savgol', interpolation='pchip', num_points=5, polynomial_order=2)", tier="thorough")
 variant("zhit:weights:Y:lowess:akima", "perform_zhit", ZH + "weights=np.ones(n), window='boxcar', admittance=True, smoothing='lowess', interpolation='akima')", tier="thorough")
 variant("zhit:weights:Z:whithend:cubic", "perform_zhit", ZH + "weights=np.ones(n), window='boxcar', smoothing='whithend', interpolation='cubic')", tier="thorough")
@@ -188,81 +189,80 @@ def call(v, d, n):
     return out, modified
 
 
-def run_group(arg):
-    """one (spectrum, mask, entry variant): all data variants, identities on each, cross comparison with the clean descending one"""
-    import pyimpspec
+def digest(results):
+    return [(np.asarray(r.frequencies), np.asarray(r.impedances), np.asarray(r.residuals), float(r.pseudo_chisqr)) for r in results]
+
+
+def same_digest(ref, other):
+    return len(ref) == len(other) and all(
+        a[1].shape == b[1].shape and np.array_equal(a[0], b[0]) and np.allclose(a[1], b[1], rtol=1e-9, atol=0)
+        and np.allclose(a[2], b[2], rtol=1e-9, atol=1e-12) and abs(a[3] - b[3]) <= 1e-9 * abs(a[3]) for a, b in zip(ref, other))
+
+
+def describe(kind, cdc, N, mask, v, dv):
+    return (f"{v['name']} on {kind} spectrum {cdc} + 0.03 % noise, {N} points 1e4..1 Hz, masked indices {list(mask)}; data variant: masked points {dv[0]}, "
+            f"input order {dv[1]}ending; call: {v['expr']}")
+
+
+def run_one(arg):
+    """one analysis call: (spectrum, mask, entry variant, data variant); the identities are evaluated here, the comparison
+    across data variants in main()"""
+    import pyimpspec  # noqa
     from pyimpspec.analysis.zhit import weights as zw
-    kind, N, seed, mask, v, dvs = arg
+    kind, N, seed, mask, vi, dv = arg
+    v = V[vi]
     f, Z, cdc = spectrum(kind, N, seed)
     n = N - len(mask)
-    recs, ref, ref_exc = [], None, None
-    where = f"{kind} spectrum {cdc} + 0.03 % noise, {N} points 1e4..1 Hz, masked indices {list(mask)}"
     keep = np.array([i not in mask for i in range(N)])
     negY = bool(np.min((1 / Z[keep]).real) < 0)
-    for dv in dvs:
-        rec = {"key": (kind, N, mask, v["name"], dv), "nontrivial": True, "fails": [], "note": None, "name": v["name"], "nres": 0}
-        desc = f"{v['name']} on {where}; data variant: masked points {dv[0]}, input order {dv[1]}ending; call: {v['expr']}"
-        with np.errstate(all="ignore"):
-            d = make_data(f, Z, mask, dv[0], dv[1])
-            before = repr(d.to_dict())
-            try:
-                out, modified = call(v, d, n)
-                exc = None
-            except Exception as ex:  # noqa
-                out, modified, exc = None, [], ex
-        if dv == dvs[0]:
-            ref_exc = exc
-        if exc is not None:
-            et = type(exc).__name__
+    rec = {"arg": arg, "key": (kind, N, mask, v["name"], dv), "nontrivial": True, "fails": [], "note": None, "name": v["name"], "nres": 0, "exc": None, "digest": None}
+    desc = describe(kind, cdc, N, mask, v, dv)
+    with np.errstate(all="ignore"):
+        d = make_data(f, Z, mask, dv[0], dv[1])
+        before = repr(d.to_dict())
+        try:
+            out, modified = call(v, d, n)
+        except Exception as ex:  # noqa
+            rec["exc"] = (type(ex).__name__, str(ex)[:200])
             if v["fn"] == "perform_zhit" and "weights=" not in v["expr"] and len(zw._WINDOW_FUNCTIONS) == 0:
                 rec["fails"].append(("zhit:no-window-functions", "_initialize_window_functions",
-                                     f"{desc}: raised {et}: {exc}; zhit.weights._WINDOW_FUNCTIONS is empty under the installed scipy, so no result can be produced without custom weights",
+                                     f"{desc}: raised {type(ex).__name__}: {ex}; zhit.weights._WINDOW_FUNCTIONS is empty under the installed scipy, so no result can be produced without custom weights",
                                      repro_src(v, f, Z, mask, dv, "never")))
-            elif dv != dvs[0] and ref_exc is None:
-                rec["fails"].append((f"{v['fn']}:masked-points-influence:exception", v["fn"],
-                                     f"{desc}: raised {et}: {exc}, while the same call on the clean descending data set returned a result",
-                                     repro_src(v, f, Z, mask, dv, "never")))
-            else:
+                rec["exc"] = None
                 rec["nontrivial"] = False
-                rec["note"] = f"{et}: {str(exc)[:120]}"
-            recs.append(rec)
-            continue
-        results = results_in(out)  # noqa: F821
-        rec["nres"] = len(results)
-        if not results:
-            raise RuntimeError(f"harness: no result objects found in the return value of {v['expr']}")
-        clauses = []
-        for r in results:
-            with np.errstate(all="ignore"):
-                for c in check_result(r, d):  # noqa: F821
-                    if c not in clauses:
-                        clauses.append(c)
-        if repr(d.to_dict()) != before:
-            clauses.append("data-modified")
-        if modified:
-            clauses.append("input-circuit-modified")
-        for c in clauses:
-            key = f"{v['fn']}:{c}"
-            if c == "pseudo_chisqr-mismatch" and v["fn"] == "perform_zhit" and "admittance=True" in v["expr"] and negY:
-                key = "zhit:pseudo_chisqr-after-admittance-offset"
-            r0 = results[0]
-            with np.errstate(all="ignore"):
-                chi = float(np.sum(np.abs((d.get_impedances() - r0.impedances) / np.abs(d.get_impedances())) ** 2)) if np.asarray(r0.impedances).shape == d.get_impedances().shape else float("nan")
-            rec["fails"].append((key, v["fn"], f"{desc}: violated clause {c} ({len(results)} result object(s); first one: reported pseudo_chisqr {r0.pseudo_chisqr:.6g}, sum |residual|^2 from data and model {chi:.6g}; min Re(Y) = {np.min((1 / Z[keep]).real):.4g})",
-                                 repro_src(v, f, Z, mask, dv, c)))
-        if dv == dvs[0]:
-            ref = results
-        elif v["det"] and ref is not None:
-            same = len(ref) == len(results) and all(
-                np.asarray(a.impedances).shape == np.asarray(b.impedances).shape and np.array_equal(a.frequencies, b.frequencies)
-                and np.allclose(a.impedances, b.impedances, rtol=1e-9, atol=0) and np.allclose(a.residuals, b.residuals, rtol=1e-9, atol=1e-12)
-                and abs(a.pseudo_chisqr - b.pseudo_chisqr) <= 1e-9 * abs(a.pseudo_chisqr) for a, b in zip(ref, results))
-            if not same:
-                rec["fails"].append((f"{v['fn']}:masked-points-influence", v["fn"],
-                                     f"{desc}: results differ from those on the clean descending data set although only masked points / the input order changed",
-                                     repro_src(v, f, Z, mask, dv, "masked-points-influence", ref=dvs[0])))
-        recs.append(rec)
-    return recs
+            return rec
+    results = results_in(out)  # noqa: F821
+    rec["nres"] = len(results)
+    if not results:
+        raise RuntimeError(f"harness: no result objects found in the return value of {v['expr']}")
+    clauses = []
+    for r in results:
+        with np.errstate(all="ignore"):
+            for c in check_result(r, d):  # noqa: F821
+                if c not in clauses:
+                    clauses.append(c)
+    if repr(d.to_dict()) != before:
+        clauses.append("data-modified")
+    if modified:
+        clauses.append("input-circuit-modified")
+    for c in clauses:
+        key = f"{v['fn']}:{c}"
+        if c == "pseudo_chisqr-mismatch" and v["fn"] == "perform_zhit" and "admittance=True" in v["expr"] and negY:
+            key = "zhit:pseudo_chisqr-after-admittance-offset"
+        r0 = results[0]
+        with np.errstate(all="ignore"):
+            Zd = d.get_impedances()
+            chi = float(np.sum(np.abs((Zd - r0.impedances) / np.abs(Zd)) ** 2)) if np.asarray(r0.impedances).shape == Zd.shape else float("nan")
+        rec["fails"].append((key, v["fn"], f"{desc}: violated clause {c} ({len(results)} result object(s); first one: reported pseudo_chisqr {r0.pseudo_chisqr:.6g}, "
+                                            f"sum |residual|^2 from data and model {chi:.6g}; min Re(Y) of the unmasked points = {np.min((1 / Z[keep]).real):.4g})",
+                             repro_src(v, f, Z, mask, dv, c)))
+    if v["det"]:
+        rec["digest"] = digest(results)
+    return rec
+
+
+COST = {"zhit:weights:Z:auto:auto": 8, "zhit:weights:Z:auto:makima": 3, "explo:real:auto": 4, "kk:complex:auto": 4, "drt:lm:pseudo-chisqr": 3, "explo:real-inv:Z": 4,
+        "fit:auto:unity": 6, "drt:mrq-fit:own-fit": 3, "kk:real:Z:lmfit-search": 3, "eval:imaginary-inv:Z:slow-search": 3}
 
 
 def main(a):
@@ -271,38 +271,58 @@ def main(a):
     sizes = (8, 9, 11, 13, 16, 20, 25) if thorough else (8, 13, 25)
     dvs_masked = [("clean", "desc"), ("nan", "desc"), ("huge", "desc"), ("clean", "asc"), ("nan", "asc")] + ([("huge", "asc")] if thorough else [])
     dvs_unmasked = [("clean", "desc"), ("clean", "asc")]
-    variants = [v for v in V if thorough or v["tier"] == "quick"]
-    groups = []
+    variants = [i for i, v in enumerate(V) if thorough or v["tier"] == "quick"]
+    jobs = []
     for N in sizes:
         for mask in masks_for(N, a.seed, thorough):
             for kind in ("zarc", "negR"):
-                for v in variants:
+                for vi in variants:
+                    v = V[vi]
                     if v["spectra"] == "zarc" and kind != "zarc":
                         continue
-                    if kind == "negR" and not (v["fn"] == "perform_zhit" or "admittance=True" in v["expr"] or v["name"].startswith(("kk:complex:auto", "drt:tr-nnls:real", "drt:lm:matrix"))):
+                    if kind == "negR" and not (v["fn"] == "perform_zhit" or "admittance=True" in v["expr"] or v["name"].startswith(("kk:complex:auto", "drt:lm:matrix"))):
                         continue      # the negative-resistance spectrum is there for the admittance paths
-                    groups.append((kind, N, a.seed, mask, v, dvs_masked if mask else dvs_unmasked))
+                    for dv in (dvs_masked if mask else dvs_unmasked):
+                        jobs.append((kind, N, a.seed, mask, vi, dv))
     res = Result("C08", f"{len(variants)} entry-point/option variants (perform_kramers_kronig_test, evaluate_log_F_ext, perform_exploratory_kramers_kronig_tests, perform_zhit, "
                         f"calculate_drt[bht|lm|mrq-fit|tr-nnls], fit_circuit) x spectra of {list(sizes)} points x random mask subsets (incl. none) x masked points "
                         "{true value, NaN, 1e30} x {descending, ascending} input",
                  "cross product; one case = one analysis call; every result object in the return value is checked against the data set (frequencies, residuals, "
                  "residual data in percent, pseudo chi-squared, circuit impedances), inputs compared before/after, deterministic variants compared with the run on "
                  "the clean descending data; non-trivial = the call returned at least one result object")
-    # longest groups first
-    order = sorted(range(len(groups)), key=lambda i: (-("mrq" in groups[i][4]["name"] or "auto" in groups[i][4]["name"] or "explo" in groups[i][4]["name"]), i))
+    jobs.sort(key=lambda j: -COST.get(V[j[4]]["name"], 1) * j[1])     # expensive calls first
+    recs = pmap(run_one, jobs)
+    refs = {(r["arg"][0], r["arg"][1], r["arg"][3], r["arg"][4]): r for r in recs if r["arg"][5] == ("clean", "desc")}
     notes, per = {}, {}
-    for recs in pmap(run_group, [groups[i] for i in order]):
-        for rec in recs:
-            res.case(rec["key"], nontrivial=rec["nontrivial"], sample={"case": str(rec["key"]), "result_objects": rec["nres"]} if rec["nontrivial"] else None)
-            for fl in rec["fails"]:
-                res.fail(*fl)
-            p = per.setdefault(rec["name"], {"calls": 0, "evaluated": 0, "result_objects": 0})
-            p["calls"] += 1
-            p["evaluated"] += int(rec["nontrivial"] and not (rec["fails"] and rec["nres"] == 0))
-            p["result_objects"] += rec["nres"]
-            if rec["note"]:
-                notes.setdefault(rec["name"], {}).setdefault(rec["note"], 0)
-                notes[rec["name"]][rec["note"]] += 1
+    for rec in recs:
+        kind, N, seed, mask, vi, dv = rec["arg"]
+        v = V[vi]
+        ref = refs[(kind, N, mask, vi)]
+        if dv != ("clean", "desc") and ref["exc"] is None and not (ref["fails"] and ref["nres"] == 0):
+            f, Z, cdc = spectrum(kind, N, seed)
+            desc = describe(kind, cdc, N, mask, v, dv)
+            if rec["exc"] is not None:
+                rec["fails"].append((f"{v['fn']}:masked-points-influence:exception", v["fn"],
+                                     f"{desc}: raised {rec['exc'][0]}: {rec['exc'][1]}, while the same call on the clean descending data set returned a result",
+                                     repro_src(v, f, Z, mask, dv, "never")))
+                rec["exc"] = None
+            elif v["det"] and rec["digest"] is not None and ref["digest"] is not None and not same_digest(ref["digest"], rec["digest"]):
+                rec["fails"].append((f"{v['fn']}:masked-points-influence", v["fn"],
+                                     f"{desc}: results differ from those on the clean descending data set although only masked points / the input order changed",
+                                     repro_src(v, f, Z, mask, dv, "masked-points-influence", ref=("clean", "desc"))))
+        if rec["exc"] is not None:       # raised on this and on the reference variant alike: not this property's subject
+            rec["nontrivial"] = False
+            rec["note"] = f"{rec['exc'][0]}: {rec['exc'][1][:120]}"
+        res.case(rec["key"], nontrivial=rec["nontrivial"], sample={"case": str(rec["key"]), "result_objects": rec["nres"]} if rec["nontrivial"] else None)
+        for fl in rec["fails"]:
+            res.fail(*fl)
+        p = per.setdefault(rec["name"], {"calls": 0, "evaluated": 0, "result_objects": 0})
+        p["calls"] += 1
+        p["evaluated"] += int(rec["nres"] > 0)
+        p["result_objects"] += rec["nres"]
+        if rec["note"]:
+            notes.setdefault(rec["name"], {}).setdefault(rec["note"], 0)
+            notes[rec["name"]][rec["note"]] += 1
     for name, p in sorted(per.items()):
         res.part(f"variant:{name}", **p, not_evaluable=notes.get(name, {}))
     return res
